@@ -15,7 +15,6 @@ import (
 	"github.com/openfga/openfga/pkg/tuple"
 )
 
-
 type rdObj struct {
 	T  string `json:"t"`
 	ID string `json:"id"`
